@@ -156,6 +156,19 @@ VARIANTS = [
      "old": "        if orig_id > self._packet_id_base:\n            self._packet_id_base = orig_id\n",
      "new": "        if orig_id > self._packet_id_base + self._maxlen:\n            pass\n        elif orig_id > self._packet_id_base:\n"
             "            self._packet_id_base = orig_id\n"},
+    # ------------------------------------------------------------------ comprehension forms of the walks
+    {"name": "P R2/R3 forward walk as next() over an enumerate generator", "file": CIRC, "expect": "silent",
+     "old": "        new_id = orig_id + self._injection_base\n        for packet_id in self.injections:\n            if new_id < packet_id and new_id not in self.injections:\n                break\n            new_id += 1\n",
+     "new": "        start = orig_id + self._injection_base\n        new_id = next((cand for n, inj in enumerate(self.injections)\n"
+            "                       if (cand := start + n) < inj and cand not in self.injections), start + len(self.injections))\n"},
+    {"name": "R2 next() over the reversed deque leaves on a larger element", "file": CIRC, "expect": "C04.R2",
+     "old": "        new_id = orig_id + self._injection_base\n        for packet_id in self.injections:\n            if new_id < packet_id and new_id not in self.injections:\n                break\n            new_id += 1\n",
+     "new": "        start = orig_id + self._injection_base\n        new_id = next((cand for n, inj in enumerate(reversed(self.injections))\n"
+            "                       if (cand := start + n) < inj and cand not in self.injections), start + len(self.injections))\n"},
+    {"name": "R3 next()-based forward walk steps two per skipped injection", "file": CIRC, "expect": "C04.R3",
+     "old": "        new_id = orig_id + self._injection_base\n        for packet_id in self.injections:\n            if new_id < packet_id and new_id not in self.injections:\n                break\n            new_id += 1\n",
+     "new": "        start = orig_id + self._injection_base\n        new_id = next((cand for n, inj in enumerate(self.injections)\n"
+            "                       if (cand := start + 2 * n) < inj and cand not in self.injections), start + len(self.injections))\n"},
     # ------------------------------------------------------------------ documented limits
     {"name": "X forward shift boundary < -> <= (value-level)", "file": CIRC, "expect": "miss",
      "old": "if new_id < packet_id and new_id not in self.injections:", "new": "if new_id <= packet_id and new_id not in self.injections:"},
